@@ -55,6 +55,7 @@ def run(chk: Check) -> None:
     run_worker_options_order(chk, get_index())
     run_worker_state_returned(chk, get_index())
     run_worker_state_complete(chk, get_index())
+    run_line_spans_inclusive(chk, get_index(), "R07.13")
     ix = get_index()
 
     # ---------------- R07.1
@@ -565,3 +566,114 @@ def run_worker_state_complete(chk: Check, ix) -> None:
             r12.ok(key, wc.loc(), how)
         else:
             r12.violation(key, f"{wc.module.relpath}:{reads[a]}", f"`self.{a}` goes into the cache meta, but State.write does not send it, worker.load_states does not assign it and no State method recomputes it: in a `-n N` build the worker-side State keeps the value State.read constructs, so the meta a parallel build writes differs from the one a sequential build writes")
+
+
+class _Unknown(Exception):
+    pass
+
+
+def line_span_sites(ix):
+    """Every `range(<x>.line, hi)` in mypy/: (function, call, verdict, detail).
+
+    `hi` is evaluated over sample line numbers (the first node starts at line 10, any other node
+    at 14, every `.end_line` is 20 or None): an inclusive span ends at 21, or at <line>+1 when the
+    end line is unknown and the expression falls back with `or`."""
+    out = []
+    for f in ix.functions.values():
+        if not f.module.name.startswith("mypy."):
+            continue
+        defs: dict[str, list[ast.expr]] = {}
+        ranges = []
+        for n in ast.walk(f.node):
+            if isinstance(n, ast.Assign) and len(n.targets) == 1 and isinstance(n.targets[0], ast.Name):
+                defs.setdefault(n.targets[0].id, []).append(n.value)
+            elif isinstance(n, ast.NamedExpr):
+                defs.setdefault(n.target.id, []).append(n.value)
+            elif isinstance(n, ast.Call) and isinstance(n.func, ast.Name) and n.func.id == "range" and len(n.args) == 2 and any(isinstance(x, ast.Attribute) and x.attr == "line" for x in ast.walk(n.args[0])):
+                ranges.append(n)
+        if f.parent is not None and ranges:
+            # nested functions are indexed on their own as well
+            ranges = [r for r in ranges if not any(r in list(ast.walk(g.node)) for g in ix.functions.values() if g.parent is f)]
+        for r in ranges:
+            first = norm(next(x for x in ast.walk(r.args[0]) if isinstance(x, ast.Attribute) and x.attr == "line").value)
+
+            def ev(e: ast.expr, end, depth=0):
+                if depth > 8:
+                    raise _Unknown("too deep")
+                if isinstance(e, ast.Constant) and isinstance(e.value, int):
+                    return e.value
+                if isinstance(e, ast.NamedExpr):
+                    return ev(e.value, end, depth + 1)
+                if isinstance(e, ast.Attribute) and e.attr == "end_line":
+                    return end
+                if isinstance(e, ast.Attribute) and e.attr == "line":
+                    owner = e.value.target if isinstance(e.value, ast.NamedExpr) else e.value
+                    return 10 if norm(owner) == first else 14
+                if isinstance(e, ast.Name):
+                    if len(defs.get(e.id, [])) != 1:
+                        raise _Unknown(f"`{e.id}` has {len(defs.get(e.id, []))} definitions in the function")
+                    return ev(defs[e.id][0], end, depth + 1)
+                if isinstance(e, ast.BoolOp) and isinstance(e.op, ast.Or):
+                    v = None
+                    for x in e.values:
+                        v = ev(x, end, depth + 1)
+                        if v:
+                            return v
+                    return v
+                if isinstance(e, ast.BinOp) and isinstance(e.op, (ast.Add, ast.Sub)):
+                    a, b = ev(e.left, end, depth + 1), ev(e.right, end, depth + 1)
+                    if a is None or b is None:
+                        raise _Unknown("arithmetic on an unknown end line")
+                    return a + b if isinstance(e.op, ast.Add) else a - b
+                raise _Unknown(f"`{norm(e)[:60]}`")
+            try:
+                lo = ev(r.args[0], 20)
+                hi = ev(r.args[1], 20)
+            except _Unknown as u:
+                out.append((f, r, "unknown", str(u)))
+                continue
+            if lo != 10:
+                out.append((f, r, "short" if lo > 10 else "long", f"with the first node starting on line 10 the range starts at {lo}"))
+                continue
+            if hi != 21:
+                missing = "line 20 is missing" if hi == 20 else f"lines {hi}..20 are missing"
+                out.append((f, r, "short" if hi < 21 else "long", f"with the last node ending on line 20 the range stops at {hi} (exclusive): {missing}" if hi < 21 else f"with the last node ending on line 20 the range runs to {hi - 1}"))
+                continue
+            falls_back = any(isinstance(x, ast.BoolOp) and isinstance(x.op, ast.Or) for x in [r.args[1], *[d for n in ast.walk(r.args[1]) if isinstance(n, ast.Name) for d in defs.get(n.id, [])]] for x in ast.walk(x))
+            if falls_back:
+                try:
+                    hi0 = ev(r.args[1], None)
+                except _Unknown as u:
+                    out.append((f, r, "unknown", str(u)))
+                    continue
+                if hi0 not in (11, 15):
+                    out.append((f, r, "short", f"without an end line the range stops at {hi0} (exclusive) although the fallback node starts on line {hi0 if hi0 in (10, 14) else '10/14'}: its own line is missing"))
+                    continue
+            out.append((f, r, "ok", ""))
+    return out
+
+
+def run_line_spans_inclusive(chk: Check, ix, rule_id: str) -> None:
+    """R07.13 / R13.15: a recorded span of source lines includes the last line of its last node."""
+    sites = line_span_sites(ix)
+    if rule_id == "R07.13":
+        r = chk.rule("R07.13", "TypeChecker.mark_unreachable records the lines of the unreachable rest of a module/class-level block in `globals_unreachable`; only the implementation phase of a parallel build (check_partial with impl_only) consults it, by `node.line in ...`, to skip the functions the sequential checker never reaches. `end_line` is inclusive and a one-line `def` starts on it, so the recorded `range(first.line, hi)` must have hi == (last.end_line or last.line) + 1 (evaluated over sample line numbers)", floor=1)
+        mine = [t for t in sites if t[0].module.name == "mypy.checker"]
+        chk_cls = ix.cls("mypy.checker.TypeChecker")
+        cp = chk_cls.methods.get("check_partial")
+        reads = [c for c in ast.walk(cp.node) if isinstance(c, ast.Compare) and len(c.ops) == 1 and isinstance(c.ops[0], ast.In) and norm(c.comparators[0]) == "self.globals_unreachable" and isinstance(c.left, ast.Attribute) and c.left.attr == "line"] if cp else []
+        if not reads:
+            raise AnalysisError("TypeChecker.check_partial: no `<node>.line in self.globals_unreachable` test found")
+        why = "a function written on the last line of the unreachable block is checked by the workers although the sequential build never looks at it: `-n N` reports its errors and stores them in the cache"
+    else:
+        r = chk.rule(rule_id, "the spans of source lines that decide where a `# type: ignore` has effect (MessageBuilder.span_from_context) and which ignores are exempt from the unused-ignore report (unreachable_lines in errors.py, skipped_lines in semanal_pass1.py) are `range(first.line, hi)` with hi == (last.end_line [or last.line]) + 1: `end_line` is inclusive (evaluated over sample line numbers)", floor=4)
+        mine = [t for t in sites if t[0].module.name != "mypy.checker" and not t[0].module.name.startswith(("mypy.test.", "mypy.stubgen", "mypy.stubtest", "mypy.report"))]
+        why = "an ignore comment on the last line of the expression / skipped block is not matched against the error (or is reported as unused although the line was never analysed)"
+    for f, call, verdict, detail in mine:
+        key = f"{f.qualname.removeprefix('mypy.')}: `range({norm(call.args[0])}, ...)` includes the last line of the span"
+        if verdict == "ok":
+            r.ok(key, f.loc(call))
+        elif verdict == "unknown":
+            raise AnalysisError(f"{f.qualname}: cannot evaluate the end of `{norm(call)[:80]}`: {detail}")
+        else:
+            r.violation(key, f.loc(call), f"`{norm(call)[:90]}`: {detail}; {why}")
